@@ -275,13 +275,19 @@ def _make_fixture(env, f):
             self.addCleanup(c)
         if f["fail"] is not None:
             raise env.exc(f["fail"])
+    class Base(fixtures.Fixture):
+        def getDetails(self):
+            # "gdraise": the fixture is set up but cannot report its details (C02's sampled extension)
+            if f.get("gdraise") is not None:
+                raise env.exc(f["gdraise"])
+            return super().getDetails()
     if f["old"]:
-        class Fx(fixtures.Fixture):
+        class Fx(Base):
             def setUp(self):
                 self._clear_cleanups()
                 body(self)
     else:
-        class Fx(fixtures.Fixture):
+        class Fx(Base):
             def _setUp(self):
                 body(self)
     return Fx()
